@@ -72,6 +72,7 @@ type canonCtx struct {
 	ctx    *cue.Context
 	src    string
 	inline string // the conjuncts of x as one expression
+	simple bool   // C04: kinds and pinned atom only (no acceptance probes)
 	atoms []cue.Value
 	nodes [][]string // CUE path (labels) of every struct node rendered, in order of appearance
 }
@@ -145,11 +146,14 @@ func (c *canonCtx) canon(v cue.Value, path []string) string {
 	b.WriteByte(bit(k&cue.BoolKind != 0))
 	b.WriteByte(bit(k&cue.NullKind != 0))
 	b.WriteByte(bit(k&cue.StructKind != 0))
+	b.WriteByte(bit(k&cue.FloatKind != 0))
 	b.WriteByte(':')
-	for _, a := range c.atoms {
-		b.WriteByte(bit(!isErr(v.Unify(a))))
+	if !c.simple {
+		for _, a := range c.atoms {
+			b.WriteByte(bit(!isErr(v.Unify(a))))
+		}
+		b.WriteByte(':')
 	}
-	b.WriteByte(':')
 	for i, a := range c.atoms {
 		pinned := false
 		if v.IsConcrete() && v.Kind() == a.Kind() {
